@@ -110,7 +110,7 @@ func init() {
 		"strings.IndexByte":               ext۰strings۰IndexByte,
 		"strings.Replace":                 ext۰strings۰Replace,
 		"strings.ToLower":                 ext۰strings۰ToLower,
-		"time.Sleep":                      ext۰time۰Sleep,
+		
 		"unicode/utf8.DecodeRuneInString": ext۰unicode۰utf8۰DecodeRuneInString,
 	} {
 		externals[k] = v
